@@ -1246,13 +1246,14 @@ fn e2e(out_path: &str, tier: &str, rep: &mut Report) {
 // ---------------------------------------------------------------------------------------------
 // stack lane
 // ---------------------------------------------------------------------------------------------
-/// Nest(d): d SEQUENCEs inside each other, the innermost empty
-fn nest(depth: usize) -> Vec<u8> {
+/// Nest(d): d constructed elements inside each other, the innermost empty; the identifier octet of level i is tags[i % n]
+/// (SEQUENCE 0x30, SET 0x31, context [0] 0xa0, application 0 0x60, private 0 0xe0: nesting is nesting whatever the class)
+fn nest(depth: usize, tags: &[u8]) -> Vec<u8> {
     // built inside out, as a list of headers
     let mut len = 0usize;
     let mut headers: Vec<Vec<u8>> = Vec::with_capacity(depth);
-    for _ in 0..depth {
-        let mut h = vec![0x30];
+    for i in 0..depth {
+        let mut h = vec![tags[(depth - 1 - i) % tags.len()]];
         h.extend(ber::len_octets(len));
         len += h.len();
         headers.push(h);
@@ -1265,8 +1266,16 @@ fn nest(depth: usize) -> Vec<u8> {
 }
 
 fn stack_child(depth: usize, variant: &str) {
-    let inner = nest(depth);
-    let bytes = match variant {
+    let tags: &[u8] = match variant.split(':').nth(1).unwrap_or("seq") {
+        "seq" => &[0x30],
+        "set" => &[0x31],
+        "ctx" => &[0xa0],
+        "app" => &[0x60],
+        "priv" => &[0xe0],
+        _ => &[0x30, 0xa0, 0x31, 0x60],
+    };
+    let inner = nest(depth, tags);
+    let bytes = match variant.split(':').next().unwrap_or("bare") {
         "bare" => inner,
         // a well-formed envelope: SearchResultEntry under ID 3 whose contents are Nest(d)
         _ => ber::message(3, ber::tlv(0x64, &inner), None),
@@ -1304,8 +1313,11 @@ fn stack_lane(rep: &mut Report) {
     let exe = std::env::current_exe().expect("own path");
     let depths = [10usize, 100, 1000, 10_000, 100_000, 1 << 19];
     let mut first_overflow: BTreeMap<&str, usize> = BTreeMap::new();
-    for variant in ["bare", "in-op"] {
+    for variant in ["bare:seq", "in-op:seq", "bare:ctx", "in-op:ctx", "in-op:set", "in-op:app", "in-op:priv", "in-op:mixed"] {
         for d in depths {
+            if !variant.ends_with(":seq") && (d == 10 || d == 1 << 19) {
+                continue;
+            }
             let out = std::process::Command::new(&exe).args(["stack-child", &d.to_string(), variant]).output().expect("spawn child");
             let stdout = String::from_utf8_lossy(&out.stdout).to_string();
             let res = stdout.lines().find(|l| l.starts_with("RESULT")).unwrap_or("").to_string();
@@ -1337,7 +1349,7 @@ fn stack_lane(rep: &mut Report) {
     }
     if let Some(d) = first_overflow.values().min() {
         rep.mismatch(&format!("c11:stack:overflow-depth-{}", d), json!({"smallest_depth_that_killed_the_process": d, "per_variant": first_overflow.iter().map(|(k, v)| json!({"variant": k, "depth": v})).collect::<Vec<_>>(),
-            "stack": "2 MiB thread (Tokio worker default)", "input": "Nest(d) = d nested SEQUENCEs, 30 L (30 L (... 30 00))"}));
+            "stack": "2 MiB thread (Tokio worker default)", "input": "Nest(d) = d nested constructed elements (SEQUENCE, SET, context, application, private class or a mix), T L (T L (... T 00))"}));
     }
 }
 
